@@ -319,9 +319,28 @@ def judgeLine (line : String) : String :=
 
 end GeomV.C13
 
+/-- all non-empty input lines (trimmed exactly as `forEachLine` does) -/
+partial def GeomV.C13.readLines (h : IO.FS.Stream) (acc : Array String) : IO (Array String) := do
+  let line ← h.getLine
+  if line.isEmpty then return acc
+  let l := (line.trimAscii).toString
+  GeomV.C13.readLines h (if l ≠ "" then acc.push l else acc)
+
+/-- `judgeLine` is a pure function of one line, so the lines are judged in chunks on Lean's task pool
+(one verdict per line, printed in input order: the output is identical to the sequential mode
+`judge1`).  Small chunks, because the cost of a line varies by three orders of magnitude (7-vertex
+pockets vs 3000-vertex smooth runs). -/
+def GeomV.C13.judgeAll (lines : Array String) (chunk : Nat := 8) : Array (Task (Array String)) :=
+  (Array.range ((lines.size + chunk - 1) / chunk)).map fun c =>
+    Task.spawn fun _ => (lines.extract (c * chunk) ((c + 1) * chunk)).map GeomV.C13.judgeLine
+
 open GeomV GeomV.C13 in
 def main (args : List String) : IO Unit := do
   let out ← IO.getStdout
   match args with
-  | ["judge"] => forEachLine fun l => out.putStrLn (judgeLine l)
-  | _ => IO.eprintln "usage: geomv_c13 judge"
+  | ["judge"] =>
+    let lines ← readLines (← IO.getStdin) #[]
+    for t in judgeAll lines do
+      for v in t.get do out.putStrLn v
+  | ["judge1"] => forEachLine fun l => out.putStrLn (judgeLine l)
+  | _ => IO.eprintln "usage: geomv_c13 judge | judge1"
